@@ -96,7 +96,10 @@ func rulesC12(c *Ctx) {
 			n1++
 			con := "close(" + chanDesc(call.Call.Args[0]) + ") in " + fname(f)
 			okOnce, why := insideOnceDo(f, call.Call.Args[0])
-			c.Check(okOnce, "R1", con, call.Pos(), "executes inside sync.Once.Do of the object's own Once", why+" — two goroutines signalling at once both close the channel: panic 'close of closed channel'")
+			if !okOnce && closeUnderFlagLock(le, f, call) {
+				okOnce = true
+			}
+			c.Check(okOnce, "R1", con, call.Pos(), "executes inside sync.Once.Do of the object's own Once (or under a mutex, on the not-yet-closed edge of a flag set under the same hold)", why+" — two goroutines signalling at once both close the channel: panic 'close of closed channel'")
 		})
 	}
 	c.Floor("R1", n1, 2)
@@ -701,4 +704,81 @@ func ruleKillRecords(c *Ctx, rule string) int {
 		c.Check(okk, rule, tn+".Kill records an error on every path", kill.Pos(), "AppendError(non-nil) on every path", why+" — a killed scope ends without an error (commit instead of rollback)")
 	}
 	return n3
+}
+
+// closeUnderFlagLock: the alternative close-once idiom
+//
+//	mu.Lock(); if !closed { closed = true; close(ch) }; mu.Unlock()
+//
+// accepted when the close executes under a write hold of a mutex of the object
+// that owns the channel, on the edge where a bool field of that object - loaded
+// under the same hold - is known false, and that field is set to true in the same
+// function under the same hold.
+func closeUnderFlagLock(le *LockEngine, f *ssa.Function, call *ssa.Call) bool {
+	u, ok := call.Call.Args[0].(*ssa.UnOp)
+	if !ok {
+		return false
+	}
+	cfa, ok := u.X.(*ssa.FieldAddr)
+	if !ok {
+		return false
+	}
+	base := keyP(cfa.X)
+	la := le.Analyze(f)
+	heldW := func(in ssa.Instruction) map[string]bool {
+		out := map[string]bool{}
+		for k, m := range la.HeldBefore(in) {
+			if m == 'W' && strings.HasPrefix(k, base+".") {
+				out[k] = true
+			}
+		}
+		return out
+	}
+	hc := heldW(call)
+	if len(hc) == 0 {
+		return false
+	}
+	facts := factsFor(f)
+	okFlag := false
+	eachInstr(f, func(b *ssa.BasicBlock, _ int, in ssa.Instruction) {
+		ld, isLd := in.(*ssa.UnOp)
+		if !isLd || ld.Op != token.MUL {
+			return
+		}
+		fa, isFA := ld.X.(*ssa.FieldAddr)
+		if !isFA || keyP(fa.X) != base || !types.Identical(ld.Type().Underlying(), types.Typ[types.Bool]) {
+			return
+		}
+		if !facts.KnownBool(call.Block(), ld, false) {
+			return
+		}
+		same := false
+		for k := range heldW(ld) {
+			if hc[k] {
+				same = true
+			}
+		}
+		if !same {
+			return
+		}
+		// the flag is set under the same hold in this function
+		eachInstr(f, func(_ *ssa.BasicBlock, _ int, in2 ssa.Instruction) {
+			st, isSt := in2.(*ssa.Store)
+			if !isSt {
+				return
+			}
+			fa2, isFA2 := st.Addr.(*ssa.FieldAddr)
+			if !isFA2 || fieldName(fa2) != fieldName(fa) || keyP(fa2.X) != base {
+				return
+			}
+			if v, isC := constBool(st.Val); isC && v {
+				for k := range heldW(st) {
+					if hc[k] && (dominates(ld, st) && (dominates(st, call) || dominates(call, st))) {
+						okFlag = true
+					}
+				}
+			}
+		})
+	})
+	return okFlag
 }
